@@ -234,7 +234,7 @@ func (t Typed) Compile(i FeatureIndex, w World) search.Iterator {
 }
 
 func (t Typed) Matches(f Feature, w World) bool {
-	return f.FeatureID().Type == t.Type
+	return f.FeatureID().Type == t.Type && t.Query.Matches(f, w)
 }
 
 func (t Typed) String() string {
